@@ -282,6 +282,13 @@ func (maps *trackedMaps) processUnfiltered(ctx context.Context, ef *Filter, filt
 					return fmt.Errorf("%s: unable to create new tracked maps for slice: %w", op, err)
 				}
 				f := field
+				if !f.CanSet() {
+					// a struct stored by value in the map cannot be modified in
+					// place: filter a settable copy, which replaces the
+					// original value below.
+					f = reflect.New(ftype).Elem()
+					f.Set(field)
+				}
 				if err := ef.filterField(ctx, f, filterOverrides, newMaps, opt...); err != nil {
 					return fmt.Errorf("%s: unable to filter struct: %w", op, err)
 				}
